@@ -50,6 +50,7 @@ var c03Lists = []c03list{
 	{name: "star", keys: true, star: true},
 	{name: "aggregates-only", keys: false, items: []Item{{E: Agg{"COUNT", ""}, As: "c"}, {E: Agg{"SUM", "v"}, As: "s"}}},
 	{name: "same-function-nested-columns", keys: true, items: []Item{{E: Agg{"SUM", "o.v"}, As: "s"}, {E: Agg{"SUM", "p.v"}, As: "s2"}, {E: Agg{"MAX", "p.v"}, As: "mx2"}, {E: Agg{"MAX", "o.v"}, As: "mx"}}},
+	{name: "column-names-differing-in-case", keys: true, items: []Item{{E: Agg{"SUM", "v"}, As: "s"}, {E: Agg{"SUM", "V"}, As: "s2"}, {E: Agg{"MAX", "V"}, As: "mx2"}, {E: Agg{"MAX", "v"}, As: "mx"}, {E: Agg{"COUNT", "V"}, As: "c2"}, {E: Agg{"COUNT", "v"}, As: "c"}}},
 	{name: "same-call-twice", keys: true, items: []Item{{E: Agg{"SUM", "v"}, As: "s"}, {E: Agg{"COUNT", ""}, As: "c"}, {E: Agg{"SUM", "v"}, As: "s3"}, {E: Agg{"SUM", "h"}, As: "sh"}}},
 }
 
@@ -70,7 +71,8 @@ var c03Havings = []Expr{
 
 func (p *c03) Init(tier string) {
 	p.tier = tier
-	groups := [][]string{nil, {"g"}, {"h"}, {"g", "h"}, {"h", "g"}}
+	// m: a grouping column of mixed kinds whose values print alike (1 / "1", NULL / "<nil>", true / "true")
+	groups := [][]string{nil, {"g"}, {"h"}, {"g", "h"}, {"h", "g"}, {"m"}, {"m", "h"}}
 	for _, g := range groups {
 		for li := range c03Lists {
 			if g == nil && c03Lists[li].star {
@@ -104,12 +106,12 @@ func (p *c03) Init(tier string) {
 		}
 	}
 	arch := []map[string]any{
-		{"g": "a", "h": 1.0, "v": 1.0, "w": 2.0},
-		{"g": "b", "h": 1.0, "v": 2.0, "w": 1.0},
-		{"g": "a", "h": 2.0, "v": nil, "w": 1.0},
-		{"g": nil, "h": 2.0, "v": 2.0, "w": nil},
-		{"g": "b", "h": 2.0, "v": 1.0, "w": 2.0},
-		{"g": nil, "h": 1.0, "v": nil, "w": 1.0},
+		{"g": "a", "h": 1.0, "v": 1.0, "w": 2.0, "m": 1.0, "V": 10.0},
+		{"g": "b", "h": 1.0, "v": 2.0, "w": 1.0, "m": "1", "V": 30.0},
+		{"g": "a", "h": 2.0, "v": nil, "w": 1.0, "m": nil, "V": 20.0},
+		{"g": nil, "h": 2.0, "v": 2.0, "w": nil, "m": "<nil>", "V": nil},
+		{"g": "b", "h": 2.0, "v": 1.0, "w": 2.0, "m": true, "V": 50.0},
+		{"g": nil, "h": 1.0, "v": nil, "w": 1.0, "m": "true", "V": 40.0},
 	}
 	maxRows := 3
 	if tier == "thorough" {
@@ -405,7 +407,7 @@ func (p *c03) runOrder(r *core.CaseResult, c *c03case, sql string) {
 
 func (p *c03) Meta() core.Meta {
 	return core.Meta{
-		Rule: "one case per query = (grouping set in {none, g, h, (g,h), (h,g)}) x (select list: keys+COUNT(*) | SUM on two columns | the same functions on two nested columns with the same final name | MIN/MAX on two columns | AVG,COUNT(*),COUNT(col) | keys+* | aggregates only | same call twice) x (5 WHEREs incl. always-false) x (4 HAVINGs) (a subset also with LIMIT 0/1/2 on the result), each run on every table of <= 3 (thorough 4) rows over 6 archetypes with NULL group keys and NULL aggregate inputs, compared as a sequence with the reference group-by; plus map-order cases: the grouped queries on a table subset under every Go-map iteration order within deviation bound 1 (thorough 2). non-trivial = reference has >= 2 groups (or a whole-table aggregate over >= 2 rows); for map-order cases: more than one iteration order was executed",
+		Rule: "one case per query = (grouping set in {none, g, h, (g,h), (h,g), m, (m,h)} - m holds values of mixed kinds that print alike) x (select list: keys+COUNT(*) | SUM on two columns | the same functions on two nested columns with the same final name | MIN/MAX on two columns | AVG,COUNT(*),COUNT(col) | keys+* | aggregates only | same call twice | the same functions on two columns whose names differ only in case) x (5 WHEREs incl. always-false) x (4 HAVINGs) (a subset also with LIMIT 0/1/2 on the result), each run on every table of <= 3 (thorough 4) rows over 6 archetypes with NULL group keys and NULL aggregate inputs, compared as a sequence with the reference group-by; plus map-order cases: the grouped queries on a table subset under every Go-map iteration order within deviation bound 1 (thorough 2). non-trivial = reference has >= 2 groups (or a whole-table aggregate over >= 2 rows); for map-order cases: more than one iteration order was executed",
 		Assumptions: []string{
 			"reference: SUM/MIN/MAX ignore NULL members and are NULL without non-NULL members; AVG and COUNT(col) only on NULL-free columns (abstains otherwise); HAVING only over NULL-free aggregate values",
 			"aggregate select items are always aliased (the property fixes no column name for COUNT(*))",
